@@ -158,9 +158,12 @@ func init() {
 				[]RootSpec{{K: "map", Addr: 2, TI: 2}, {K: "arr", Addr: 0, TI: 1}, {K: "arr", Addr: 2, TI: 3}})
 			g.NondetPct = 40
 			g.W["commit"] = 5
+			g.W["evict"] = 3
+			g.Keep = 15 // kept values are disposed of later ("drop"), some of them by identifier without loading
+			g.W["drop"] = 6
 			return g
 		},
-		Or:  func(*Case) Oracles { return Oracles{CmpEvery: 16, Health: true} },
+		Or:  func(*Case) Oracles { return Oracles{CmpEvery: 16, Health: true, BlindDispose: true, QuietAfterEvict: true} },
 		Post: func(e *Engine, cs *Case) error { return e.emptyEverything() },
 		Non: func(s *CaseStats) bool {
 			n := 0
